@@ -398,6 +398,94 @@ func runC08(c *Ctx) {
 			c.Undecided("core/state#validator-record-writes", 0, "no updateStakingData / deleteStakingData call with validatorFlag found")
 		}
 	}
+
+	// ------------------------------------------------------------ V11
+	c.Rule("C08.V11", "ALWAYS-WITH", "delegator accounts and validators agree on the delegated amounts also after a penalty: in takePenalty every reduction of a delegation entry (the call that rewrites d.Token / d.Stake) is accompanied on the same paths by StateDB.UpdateDelegator for that entry's delegator — Account.DelegationBalance is part of the state root and would otherwise keep the unslashed amount (after a full undelegation the account still claims tokens delegated to nobody)")
+	c.Min(1)
+	{
+		tp := w.Fn("staking", "", "takePenalty")
+		c.sawFunc(fname(tp))
+		dfT := w.Named(statePkg, "DelegationFrom")
+		nRed := 0
+		for _, fn := range withClosures(tp) {
+			var upd []ssa.Instruction
+			for _, ci := range callInstrs(fn) {
+				if o := calleeObj(ci); o != nil && o.Name() == "UpdateDelegator" {
+					upd = append(upd, ci.(ssa.Instruction))
+				}
+			}
+			for _, ci := range callInstrs(fn) {
+				// a call that is handed an amount field of a delegation entry (the in-place rewrite goes through it)
+				if ci.Common().StaticCallee() != nil && ci.Common().StaticCallee().Parent() == nil {
+					continue
+				}
+				if _, isB := ci.Common().Value.(*ssa.Builtin); isB {
+					continue
+				}
+				if o := calleeObj(ci); o != nil && o.Pkg() != nil && o.Pkg().Path() == "math/big" {
+					continue
+				}
+				// the closure that is called, and which of its parameters it changes in place
+				var callee *ssa.Function
+				switch v := ci.Common().Value.(type) {
+				case *ssa.Function:
+					callee = v
+				case *ssa.MakeClosure:
+					callee, _ = v.Fn.(*ssa.Function)
+				case *ssa.UnOp:
+					if al, ok := v.X.(*ssa.Alloc); ok {
+						for _, r := range *al.Referrers() {
+							if st, isSt := r.(*ssa.Store); isSt && st.Addr == ssa.Value(al) {
+								if mc, isMC := st.Val.(*ssa.MakeClosure); isMC {
+									callee, _ = mc.Fn.(*ssa.Function)
+								}
+							}
+						}
+					}
+				}
+				if callee == nil {
+					continue
+				}
+				mutated := map[int]bool{}
+				for _, cj := range callInstrs(callee) {
+					o := calleeObj(cj)
+					if o == nil || o.Pkg() == nil || o.Pkg().Path() != "math/big" || recvName(o) != "Int" {
+						continue
+					}
+					switch o.Name() {
+					case "Set", "Sub", "Add", "Mul", "Quo", "Div", "SetUint64", "SetInt64", "Neg":
+					default:
+						continue
+					}
+					if r := callRecv(cj); r != nil {
+						for i, prm := range callee.Params {
+							if stripConvNoBind(r) == ssa.Value(prm) {
+								mutated[i] = true
+							}
+						}
+					}
+				}
+				hands := false
+				for i, a := range ci.Common().Args {
+					f, base := loadedField(stripConvNoBind(a))
+					if mutated[i] && f != nil && base != nil && types.Identical(deref(base.Type()), dfT) && (f.Name() == "Token" || f.Name() == "Stake") && isBigIntPtr(a.Type()) {
+						hands = true
+					}
+				}
+				if !hands {
+					continue
+				}
+				// only calls of closures / helpers that mutate what they are handed
+				nRed++
+				c.sites++
+				ok := alwaysWith(ci.(ssa.Instruction), upd)
+				c.Check(fmt.Sprintf("%s#entry-reduction-%d-with-delegator-update", fname(tp), nRed), ci.Pos(), ok, ifelse(ok, "UpdateDelegator on the same paths", "a delegation entry is reduced by a penalty without the delegator's account being updated: Account.DelegationBalance keeps the unslashed amount and disagrees with the validators' records"))
+			}
+		}
+		if nRed == 0 {
+			c.Undecided(fname(tp)+"#entry-reductions", tp.Pos(), "no reduction of a delegation entry found in takePenalty")
+		}
+	}
 }
 
 func incArgLoose(pred func(ssa.Value) bool, v ssa.Value) bool {
@@ -541,5 +629,6 @@ func c08Variants() []Variant {
 		{Name: "stake-equal-ignores-status", File: "core/state/validator.go", Old: " && v.Token.Cmp(val.Token) == 0 && v.Status == val.Status {", New: " && v.Token.Cmp(val.Token) == 0 {", Rule: "C08.V2", Construct: "StakeEqual"},
 		{Name: "self-stake-from-tokens", File: "staking/take_effect_handler.go", Old: "	delta := new(big.Int).Sub(newStake, newVal.SelfStake)\n	newVal.SelfStake.Set(newStake)\n	//update total", New: "	delta := new(big.Int).Sub(newStake, newVal.SelfStake)\n	newVal.SelfStake.Set(newVal.SelfToken)\n	//update total", Rule: "C08.V3", Construct: "teDeposit"},
 		{Name: "skip-delegator-on-delete", File: "core/state/statedb_staking.go", Old: "	st.UpdateDelegator(d, val.MainAddress(), tokenChanged, status == params.Delete)\n", New: "	if status != params.Delete {\n		st.UpdateDelegator(d, val.MainAddress(), tokenChanged, false)\n	}\n", Rule: "C08.V4", Construct: "UpdateDelegation#return"},
+		{Name: "penalty-without-delegator-update", File: "staking/slash.go", Old: "					currentDB.UpdateDelegator(d.Delegator, val.MainAddress(), new(big.Int).Neg(fromDeposit), d.Empty())\n", New: "", Rule: "C08.V11", Construct: "takePenalty"},
 	}
 }
